@@ -298,6 +298,33 @@ theorem viewbox_align (pr : PAR) (W H : Rat) (vb : VB) :
   cases pr with
   | mk x y n s => cases x <;> cases y <;> simp <;> grind
 
+/-- the ROOT element without a viewBox: whatever its width / height attributes (absent, percentage, or an
+    absolute length that is then the viewport's size) and whatever preserveAspectRatio, user space
+    coincides with the viewport — the mapping handed to the backend is the identity -/
+theorem root_without_viewbox_identity (pr : PAR) (W H : Rat) (w h : Option Rat)
+    (hw : ∀ x, w = some x → x = W ∧ 0 < x) (hh : ∀ y, h = some y → y = H ∧ 0 < y) :
+    rootTransform pr W H none w h = ⟨1, 1, 0, 0⟩ := by
+  cases w with
+  | none => simp [rootTransform, rootViewBox, resolveTransforms]
+  | some x =>
+    cases h with
+    | none => simp [rootTransform, rootViewBox, resolveTransforms]
+    | some y =>
+      obtain ⟨e1, p1⟩ := hw x rfl
+      obtain ⟨e2, p2⟩ := hh y rfl
+      subst e1; subst e2
+      have n1 : x ≠ 0 := by grind
+      have n2 : y ≠ 0 := by grind
+      have d1 : x / x = 1 := by grind
+      have d2 : y / y = 1 := by grind
+      cases pr with
+      | mk ax ay n s =>
+        cases ax <;> cases ay <;> cases n <;> cases s <;>
+          simp [rootTransform, rootViewBox, resolveTransforms, n1, n2, d1, d2, rmin, rmax] <;> grind
+
+/-- `<svg width="100%" height="100">` in a 300 px wide container: identity (not a shift by half the width) -/
+example : rootTransform ⟨.mid, .mid, false, false⟩ 300 100 none none (some 100) = ⟨1, 1, 0, 0⟩ := by decide +kernel
+
 /-! ## `<use>` resolution -/
 
 /-- resolution with the in-use set terminates: following `<use>` references recurses at most
